@@ -53,5 +53,5 @@ reg(C01(
         "cmd/gnmi_collector (Update closure, collector.start/add, SetClient wiring), manager.handleGNMIUpdate/customizeRequest, cache.GnmiUpdate/gnmiUpdate/gnmiRemove/toDeleteNotification, subscribe (addSubscription, processSubscription snapshot, coalescing queue of leaf pointers, match), path.ToStrings/CompletePath, value.ToScalar/Equal, client/gnmi defaultRecv+noti, client.CacheClient, cmd/gnmi_cli executeSubscribe/protoRequestFromFlags/parseQuery",
     ],
 ),
-    level_text="Theorems in coq/Props/C01.v state, over a Gallina model of the whole relay (stamp -> cache -> feed -> coalescing subscriber queue -> client decode -> client tree) and for every interleaving of stream arrivals, sender steps and the subscription point, that at quiescence the client's leaves are exactly the target's final state under the configured name, and that the three gnmi_cli invocation styles build the same request; the model is tied to the code by end-to-end runs on the built gnmi_collector and gnmi_cli binaries against scripted TLS targets, evaluated inside Coq together with a flat-map specification applied to the observed client views and CLI output.",
+    level_text="Theorems in coq/Props/C01.v state, over a Gallina model of the whole relay (stamp -> cache -> feed -> coalescing subscriber queue -> client decode -> client tree) and for every interleaving of stream arrivals, sender steps and the subscription point, that at quiescence the client's leaves are exactly the target's final state under the configured name, that the three gnmi_cli invocation styles build the same request, and that requests differing only in encoding (elem / deprecated element strings / prefix origin) resolve to the same index path and ONCE view; the model is tied to the code by end-to-end runs on the built gnmi_collector and gnmi_cli binaries against scripted TLS targets, evaluated inside Coq together with a flat-map specification applied to the observed client views and CLI output.",
     level_note="Trusted: Coq kernel + vm_compute, the hand-written model (validated on the explored scenarios), the Go harness (fake targets, projection of client values and CLI text). gRPC/TLS/prototext exercised only.")
